@@ -320,6 +320,24 @@ func init() {
 			return doTypedModel(f[1], f[2], f[3], f[4], f[5]), true
 		case f[0] == "Y" && len(f) == 5:
 			return doSlice(f[1], f[2], f[3], f[4]), true
+		case f[0] == "CB" && len(f) == 3:
+			n, e1 := strconv.Atoi(f[1])
+			tail, e2 := unhexField(f[2])
+			if e1 == nil && e2 == nil && n >= 1 && n <= 64<<20 {
+				small := doCompile("a" + tail)
+				o := doCompile(strings.Repeat("a", n) + tail)
+				// the same outcome as the one-letter identifier followed by the same tail, the offset moved by the length
+				if strings.HasPrefix(small.base, "errsyn ") {
+					k, _ := strconv.Atoi(strings.TrimPrefix(small.base, "errsyn "))
+					if o.base != "errsyn "+strconv.Itoa(k+n-1) {
+						o.flags = append(o.flags, "bigoffset:"+truncate(o.base, 40))
+					}
+				} else if strings.HasPrefix(small.base, "ok") != strings.HasPrefix(o.base, "ok") || (small.base == "err") != (o.base == "err") {
+					o.flags = append(o.flags, "bigdiffers:"+truncate(small.base, 40))
+				}
+				o.base = truncate(o.base, 60)
+				return o, true
+			}
 		case f[0] == "XB" && len(f) == 4:
 			e, e1 := unhexField(f[2])
 			n, e2 := strconv.Atoi(f[3])
